@@ -8,6 +8,13 @@ def chk(pid, cat, text, note, tech, engine="mc", design=None):
       "evidence_file":f"evidence/{pid}.json","replay_cmd_template":"cd harness && GOFLAGS=-mod=mod go run ./cmd/vcheck replay {path}","engine":engine,
       "level_claimed":{"category":cat,"text":text,"design_ref":design or f"DESIGN.md section 4 {pid}"},"level_note":note,"technique":tech}
 exec(open("/verif/manifest_table.py").read())
+# sub-families of these checks are repeated over the environment menus (DESIGN.md section 3)
+ENV={"C01":"feed modes, sink kinds, source kinds of the decoding side","C02":"sink kinds and feed modes (family (s))","C03":"source kinds and io.Copy","C04":"bufio sources","C05":"nine source kinds and io.Copy",
+ "C06":"io.Copy feeds, io.ByteWriter sinks","C07":"io.Copy feeds (writer side), source kinds / io.Copy / a first Read (reader side)","C08":"sink kinds, reused configuration variable","C09":"sinks with a Flush method or WriteString/ReadFrom",
+ "C10":"output name '-'","C11":"bufio and data-with-EOF sources","C12":"bufio sources on and off the 4-byte grid","C15":"stdout as pipe / file / /dev/null, output name '-'","C16":"source kinds, one-byte chunks",
+ "C17":"io.Copy feeds, the gxz tool itself","C18":"sink kinds at every code boundary"}
+for k,v in ENV.items():
+    checks[k]["level_claimed"]["text"]+=" Environment kinds (DESIGN.md section 3): "+v+"."
 na=[{"property_id":i,"reason":"check under construction in this session (see DESIGN.md section 4); not claimed yet"} for i in ALL if i not in checks]
 m={"version":1,"setup_cmd":"./setup.sh",
  "hooks":{"guard":"verif","enable":"no source hooks in /repo: checks observe the public API and the gxz binary built from the working tree; C14 injects a sync shim with `go build -overlay` at check time","baseline_off_cmd":"cd /repo && go test -mod=mod -vet=off -count=1 ./...","source_commits":[],"add_only":True},
